@@ -454,7 +454,8 @@ def register(R: Registry):
     IOX.install_io(AStr)
 
     def reader(S, with_handle=True):
-        return S.obj(FileReader, fname="", fb=None, f=file_handle(S) if with_handle else None, encoding="utf-8", kwargs={})
+        # the handle an earlier __enter__ returned: a text handle over some source (close() logged, .closed readable)
+        return S.obj(FileReader, fname="", fb=None, f=IOX.text_handle(z3.Int(fresh_name("some_source")), "fh") if with_handle else None, encoding="utf-8", kwargs={})
 
     def handle_closed(E, v, o):
         f = o["self"].fields["f"]
